@@ -7,13 +7,14 @@
    call log, the heap of a Python callable, ...).  Python loops are transcribed
    as accumulator-passing recursions (r = []; for x in a: r.append(f(x))).
    No proofs in this file. *)
-From Coq Require Import ZArith List Bool String.
+From Coq Require Import ZArith List Bool String Floats.SpecFloat.
 Import ListNotations.
 Open Scope Z_scope.
 
 (* ------------------------------------------------------------------ values *)
 Inductive val :=
 | VInt (z : Z)
+| VReal (f : spec_float)            (* binary64: prec 53, emax 1024 (Coq.Floats.SpecFloat, bit-exact, axiom-free) *)
 | VChar (c : Z)
 | VStr (s : list Z)                 (* a Python str that is not a KGChar: iterable *)
 | VList (l : list val)              (* ndarray / list, any rank, any dtype *)
@@ -123,48 +124,96 @@ Arguments for_zip {S} f xs ys r.
 Arguments py_reduce {S} f value it.
 Arguments py_accumulate {S} f total it r.
 
+(* ------------------------------------------------------------------ numbers: integers and binary64 *)
+Inductive num := NI (z : Z) | NR (f : spec_float).
+
+Definition fadd := SFadd 53 1024.
+Definition fsub := SFsub 53 1024.
+Definition fmul := SFmul 53 1024.
+Definition fdiv := SFdiv 53 1024.
+(* int -> float64 conversion, round to nearest even *)
+Definition of_Z (z : Z) : spec_float := binary_normalize 53 1024 z 0 false.
+Definition to_real (n : num) : spec_float := match n with NI z => of_Z z | NR f => f end.
+Definition cast_real (n : num) : num := NR (to_real n).
+
+Definition vnum (n : num) : val := match n with NI z => VInt z | NR f => VReal f end.
+Definition num_of (v : val) : option num :=
+  match v with VInt z => Some (NI z) | VReal f => Some (NR f) | _ => None end.
+
+(* int op int stays an integer; anything with a real is computed in binary64 *)
+Definition arith_op (zop : Z -> Z -> Z) (fop : spec_float -> spec_float -> spec_float) (a b : num) : num :=
+  match a, b with
+  | NI x, NI y => NI (zop x y)
+  | _, _ => NR (fop (to_real a) (to_real b))
+  end.
+Definition n_add := arith_op Z.add fadd.
+Definition n_sub := arith_op Z.sub fsub.
+Definition n_mul := arith_op Z.mul fmul.
+Definition n_div (a b : num) : num := NR (fdiv (to_real a) (to_real b)).     (* true division: always real *)
+Definition n_min := arith_op Z.min (fun x y => if SFltb y x then y else x).   (* np.minimum without NaN *)
+Definition n_max := arith_op Z.max (fun x y => if SFltb x y then y else x).
+Definition b2n (b : bool) : num := NI (if b then 1 else 0).
+Definition n_lt (a b : num) : num :=
+  match a, b with NI x, NI y => b2n (Z.ltb x y) | _, _ => b2n (SFltb (to_real a) (to_real b)) end.
+Definition n_gt (a b : num) : num := n_lt b a.
+
+(* np.isclose(a, b) with the default rtol = 1e-05, atol = 1e-08, computed in binary64 as NumPy does:
+   abs(a - b) <= atol + rtol * abs(b) *)
+Definition ATOL : spec_float := S754_finite false 6066930334832442 (-79).    (* 1e-08 *)
+Definition RTOL : spec_float := S754_finite false 5902958103587057 (-69).    (* 1e-05 *)
+Definition isclose (a b : num) : bool :=
+  let x := to_real a in let y := to_real b in
+  SFleb (SFabs (fsub x y)) (fadd ATOL (fmul RTOL (SFabs y))).
+
 (* ------------------------------------------------------------------ NumPy as far as the shortcuts need it *)
-Fixpoint ints_of (l : list val) : option (list Z) :=
+Fixpoint nums_of (l : list val) : option (list num) :=
   match l with
   | [] => Some []
-  | VInt z :: l' => match ints_of l' with Some zs => Some (z :: zs) | None => None end
-  | _ => None
+  | v :: l' =>
+      match num_of v, nums_of l' with Some n, Some ns => Some (n :: ns) | _, _ => None end
   end.
 
-Fixpoint rows_of (l : list val) : option (list (list Z)) :=
+Fixpoint rows_of (l : list val) : option (list (list num)) :=
   match l with
   | [] => Some []
   | VList r :: l' =>
-      match ints_of r, rows_of l' with Some zs, Some rs => Some (zs :: rs) | _, _ => None end
+      match nums_of r, rows_of l' with Some ns, Some rs => Some (ns :: rs) | _, _ => None end
   | _ => None
   end.
 
-Definition same_len (n : nat) (rows : list (list Z)) : bool :=
+Definition same_len (n : nat) (rows : list (list num)) : bool :=
   forallb (fun r => Nat.eqb (List.length r) n) rows.
+
+Definition is_real (n : num) : bool := match n with NR _ => true | NI _ => false end.
+(* one dtype: all integers or all reals (kg_asarray homogenises literals; a mixed list of results is
+   not an array of one numeric dtype here and is treated like an object array) *)
+Definition uniform (ns : list num) : bool :=
+  match ns with [] => true | n :: _ => forallb (fun m => Bool.eqb (is_real m) (is_real n)) ns end.
 
 (* how kg_asarray represents a list value *)
 Inductive repr :=
-| IntVec (zs : list Z)                  (* rank 1, integer dtype *)
-| IntMat (ncols : nat) (rows : list (list Z))   (* rank 2, integer dtype, every row has ncols entries *)
-| Other.                                (* object dtype, or rank >= 3 *)
+| NumVec (ns : list num)                          (* rank 1, integer or float dtype *)
+| NumMat (ncols : nat) (rows : list (list num))   (* rank 2, one numeric dtype, every row has ncols entries *)
+| Other.                                          (* object dtype, or rank >= 3 *)
 
 Definition classify (xs : list val) : repr :=
   match xs with
   | [] => Other
-  | VInt _ :: _ => match ints_of xs with Some zs => IntVec zs | None => Other end
   | VList r0 :: _ =>
       match rows_of xs with
-      | Some rows => let n := List.length r0 in if same_len n rows then IntMat n rows else Other
+      | Some rows => let n := List.length r0 in
+                     if same_len n rows && uniform (List.concat rows) then NumMat n rows else Other
       | None => Other
       end
-  | _ => Other
+  | _ => match nums_of xs with Some ns => if uniform ns then NumVec ns else Other | None => Other end
   end.
 
 (* the atomic extension of a scalar operation to nested lists (Klong's vec_fn2, and Python's
    operator on object-dtype elements): scalar with list, list with list of the same length *)
-Fixpoint ew_sl (u : Z -> Z -> Z) (x : Z) (b : val) : res val :=
+Fixpoint ew_sl (u : num -> num -> num) (x : num) (b : val) : res val :=
   match b with
-  | VInt y => Ok (VInt (u x y))
+  | VInt y => Ok (vnum (u x (NI y)))
+  | VReal y => Ok (vnum (u x (NR y)))
   | VList lb =>
       (fix go (l : list val) : res val :=
          match l with
@@ -180,23 +229,14 @@ Fixpoint ew_sl (u : Z -> Z -> Z) (x : Z) (b : val) : res val :=
   | _ => Err E_TYPE
   end.
 
-Fixpoint ew2 (u : Z -> Z -> Z) (a b : val) {struct a} : res val :=
+Definition is_numv (v : val) : bool := match v with VInt _ | VReal _ => true | _ => false end.
+
+Fixpoint ew2 (u : num -> num -> num) (a b : val) {struct a} : res val :=
   match a with
-  | VInt x => ew_sl u x b
+  | VInt x => ew_sl u (NI x) b
+  | VReal x => ew_sl u (NR x) b
   | VList la =>
       match b with
-      | VInt _ =>
-          (fix go (l : list val) : res val :=
-             match l with
-             | [] => Ok (VList [])
-             | e :: l' =>
-                 match ew2 u e b, go l' with
-                 | Ok v, Ok (VList vs) => Ok (VList (v :: vs))
-                 | Ok _, Ok _ => Err E_TYPE
-                 | Ok _, other => other
-                 | other, _ => other
-                 end
-             end) la
       | VList lb =>
           (fix go (l : list val) (m : list val) : res val :=
              match l, m with
@@ -211,7 +251,20 @@ Fixpoint ew2 (u : Z -> Z -> Z) (a b : val) {struct a} : res val :=
                  end
              | _, _ => Err E_UNMODELLED       (* unequal lengths: NumPy broadcasting or an error *)
              end) la lb
-      | _ => Err E_TYPE
+      | _ =>
+          if is_numv b then
+          (fix go (l : list val) : res val :=
+             match l with
+             | [] => Ok (VList [])
+             | e :: l' =>
+                 match ew2 u e b, go l' with
+                 | Ok v, Ok (VList vs) => Ok (VList (v :: vs))
+                 | Ok _, Ok _ => Err E_TYPE
+                 | Ok _, other => other
+                 | other, _ => other
+                 end
+             end) la
+          else Err E_TYPE
       end
   | _ => Err E_TYPE
   end.
@@ -255,20 +308,21 @@ Definition scanl1 {A} (u : A -> A -> A) (l : list A) : list A :=
 Definition accumulate_axis0 {A} (u : A -> A -> A) (d : A) (n : nat) (rows : list (list A)) : list (list A) :=
   transpose d (List.length rows) (map (scanl1 u) (transpose d n rows)).
 
-(* np.min / np.max of a rank-1 integer array *)
-Definition np_extreme (u : Z -> Z -> Z) (zs : list Z) : Z :=
-  match zs with [] => 0 | z :: zs' => fold_right u z zs' end.
+(* np.min / np.max of a rank-1 array *)
+Definition np_extreme (u : num -> num -> num) (ns : list num) : num :=
+  match ns with [] => NI 0 | z :: zs' => fold_right u z zs' end.
 
+Definition vnums (ns : list num) : val := VList (map vnum ns).
 Definition vints (zs : list Z) : val := VList (map VInt zs).
 
 (* reduce of an object-dtype (or rank >= 3) array: a left fold with the elements' own operator *)
-Fixpoint obj_reduce (u : Z -> Z -> Z) (value : val) (it : list val) : res val :=
+Fixpoint obj_reduce (u : num -> num -> num) (value : val) (it : list val) : res val :=
   match it with
   | [] => Ok value
   | x :: it' => match ew2 u value x with Ok v => obj_reduce u v it' | other => other end
   end.
 
-Fixpoint obj_accumulate (u : Z -> Z -> Z) (total : val) (it : list val) : res (list val) :=
+Fixpoint obj_accumulate (u : num -> num -> num) (total : val) (it : list val) : res (list val) :=
   match it with
   | [] => Ok []
   | x :: it' =>
@@ -279,37 +333,45 @@ Fixpoint obj_accumulate (u : Z -> Z -> Z) (total : val) (it : list val) : res (l
       end
   end.
 
-Definition np_reduce (u : Z -> Z -> Z) (xs : list val) : res val :=
+(* a NumPy ufunc: the cast of the operand to the loop's dtype (true_divide computes in float64, so an
+   integer array is converted first) and the scalar operation *)
+Record ufunc := { uf_cast : num -> num ; uf_op : num -> num -> num }.
+
+Definition np_reduce (uf : ufunc) (xs : list val) : res val :=
   match classify xs with
-  | IntVec zs => Ok (VInt (fold1 u 0 zs))
-  | IntMat n rows => Ok (vints (reduce_axis0 u 0 n rows))
-  | Other => match xs with [] => Err E_TYPE | x :: xs' => obj_reduce u x xs' end
+  | NumVec ns => Ok (vnum (fold1 (uf_op uf) (NI 0) (map (uf_cast uf) ns)))
+  | NumMat n rows => Ok (vnums (reduce_axis0 (uf_op uf) (NI 0) n (map (map (uf_cast uf)) rows)))
+  | Other => match xs with [] => Err E_TYPE | x :: xs' => obj_reduce (uf_op uf) x xs' end
   end.
 
-Definition np_accumulate (u : Z -> Z -> Z) (xs : list val) : res val :=
+Definition np_accumulate (uf : ufunc) (xs : list val) : res val :=
   match classify xs with
-  | IntVec zs => Ok (vints (scanl1 u zs))
-  | IntMat n rows => Ok (VList (map vints (accumulate_axis0 u 0 n rows)))
+  | NumVec ns => Ok (vnums (scanl1 (uf_op uf) (map (uf_cast uf) ns)))
+  | NumMat n rows => Ok (VList (map vnums (accumulate_axis0 (uf_op uf) (NI 0) n (map (map (uf_cast uf)) rows))))
   | Other =>
       match xs with
       | [] => Err E_TYPE
-      | x :: xs' => match obj_accumulate u x xs' with Ok r => Ok (VList (x :: r)) | Err e => Err e | OutOfFuel => OutOfFuel end
+      | x :: xs' => match obj_accumulate (uf_op uf) x xs' with Ok r => Ok (VList (x :: r)) | Err e => Err e | OutOfFuel => OutOfFuel end
       end
   end.
 
-(* the scalar function of a NumPy ufunc, by name; divide is real division: not modelled *)
-Definition ufunc_scalar (name : string) : option (Z -> Z -> Z) :=
-  if String.eqb name "add" then Some Z.add else
-  if String.eqb name "subtract" then Some Z.sub else
-  if String.eqb name "multiply" then Some Z.mul else None.
+Definition same_dtype (n : num) : num := n.
 
-(* the scalar function of a Klong operator verb on integers *)
-Definition klong_scalar (op : string) : option (Z -> Z -> Z) :=
-  if String.eqb op "+" then Some Z.add else
-  if String.eqb op "-" then Some Z.sub else
-  if String.eqb op "*" then Some Z.mul else
-  if String.eqb op "&" then Some Z.min else
-  if String.eqb op "|" then Some Z.max else None.
+(* the NumPy ufuncs of the shortcut tables, by name *)
+Definition ufunc_scalar (name : string) : option ufunc :=
+  if String.eqb name "add" then Some {| uf_cast := same_dtype; uf_op := n_add |} else
+  if String.eqb name "subtract" then Some {| uf_cast := same_dtype; uf_op := n_sub |} else
+  if String.eqb name "multiply" then Some {| uf_cast := same_dtype; uf_op := n_mul |} else
+  if String.eqb name "divide" then Some {| uf_cast := cast_real; uf_op := n_div |} else None.
+
+(* the scalar function of a Klong operator verb on numbers *)
+Definition klong_scalar (op : string) : option (num -> num -> num) :=
+  if String.eqb op "+" then Some n_add else
+  if String.eqb op "-" then Some n_sub else
+  if String.eqb op "*" then Some n_mul else
+  if String.eqb op "%" then Some n_div else
+  if String.eqb op "&" then Some n_min else
+  if String.eqb op "|" then Some n_max else None.
 
 (* ---- the shortcut tables regenerated from eval_adverb_over / eval_adverb_scan_over.
    An entry is (operator character, action); the action strings are produced by the translator:
@@ -345,13 +407,13 @@ Definition over_shortcut (t : table) (op : option string) (xs : list val) : opti
               end
           | None =>
               if String.eqb act "min:ndim1:nonobj" then
-                match classify xs with IntVec zs => Some (Ok (VInt (np_extreme Z.min zs))) | _ => None end
+                match classify xs with NumVec ns => Some (Ok (vnum (np_extreme n_min ns))) | _ => None end
               else if String.eqb act "max:ndim1:nonobj" then
-                match classify xs with IntVec zs => Some (Ok (VInt (np_extreme Z.max zs))) | _ => None end
+                match classify xs with NumVec ns => Some (Ok (vnum (np_extreme n_max ns))) | _ => None end
               else if String.eqb act "concat:nonobj" then
                 match classify xs with
-                | IntVec zs => Some (Ok (vints zs))
-                | IntMat _ rows => Some (Ok (vints (List.concat rows)))
+                | NumVec ns => Some (Ok (vnums ns))
+                | NumMat _ rows => Some (Ok (vnums (List.concat rows)))
                 | Other => None
                 end
               else Some (Err E_TABLE)
@@ -385,15 +447,39 @@ Fixpoint zs_eqb (a b : list Z) : bool :=
   | _, _ => false
   end.
 
-(* backend.kg_equal on the values of this model (exact on integers; see notes for |n| >= 10^5) *)
+(* non-object ndarray: compared with np.array_equal, i.e. exactly *)
+Definition plain_array (l : list val) : bool :=
+  match classify l with Other => false | _ => true end.
+
+Definition num_eqb (a b : num) : bool :=
+  match a, b with
+  | NI x, NI y => Z.eqb x y
+  | _, _ => SFeqb (to_real a) (to_real b)
+  end.
+
+(* exact element-wise equality of two numeric arrays *)
+Fixpoint exact_equal (a b : val) {struct a} : bool :=
+  match a, b with
+  | VList l, VList m =>
+      (fix go (l m : list val) : bool :=
+         match l, m with
+         | [], [] => true
+         | x :: l', y :: m' => exact_equal x y && go l' m'
+         | _, _ => false
+         end) l m
+  | _, _ => match num_of a, num_of b with Some x, Some y => num_eqb x y | _, _ => false end
+  end.
+
+(* backend.kg_equal on the values of this model: numbers with np.isclose, non-object arrays exactly
+   (np.array_equal), object arrays element by element *)
 Fixpoint kg_equal (a b : val) {struct a} : bool :=
   match a, b with
-  | VInt x, VInt y => Z.eqb x y
   | VChar x, VChar y => Z.eqb x y
   | VChar x, VStr [y] => Z.eqb x y
   | VStr [x], VChar y => Z.eqb x y
   | VStr s, VStr t => zs_eqb s t
   | VList l, VList m =>
+      if plain_array l && plain_array m then exact_equal a b else
       (fix go (l m : list val) : bool :=
          match l, m with
          | [], [] => true
@@ -407,13 +493,13 @@ Fixpoint kg_equal (a b : val) {struct a} : bool :=
          | (k, v) :: l', (k', v') :: m' => kg_equal k k' && kg_equal v v' && go l' m'
          | _, _ => false
          end) k1 k2
-  | _, _ => false
+  | _, _ => match num_of a, num_of b with Some x, Some y => isclose x y | _, _ => false end
   end.
 
 (* `isinstance(p, type(q))` of eval_adverb_converge._e *)
 Definition isinstance_of (p q : val) : bool :=
   match p, q with
-  | VInt _, VInt _ | VChar _, VChar _ | VStr _, VStr _ | VList _, VList _ | VDict _, VDict _ => true
+  | VInt _, VInt _ | VReal _, VReal _ | VChar _, VChar _ | VStr _, VStr _ | VList _, VList _ | VDict _, VDict _ => true
   | VChar _, VStr _ => true          (* KGChar is a subclass of str *)
   | _, _ => false
   end.
@@ -423,6 +509,7 @@ Definition conv_eq (p q : val) : bool := isinstance_of p q && kg_equal p q.
 Definition truthy (v : val) : res bool :=
   match v with
   | VInt z => Ok (negb (Z.eqb z 0))
+  | VReal f => Ok (negb (SFeqb f (S754_zero false)))
   | VChar _ => Ok true
   | VStr s => Ok (negb (Nat.eqb (List.length s) 0))
   | VDict kvs => Ok (negb (Nat.eqb (List.length kvs) 0))
